@@ -17,11 +17,13 @@ Distinct(pkg) == \A i, j \in 1..Len(pkg) : i # j => NoDots(pkg[i].comps) # NoDot
 \* recreation is claimed for packages the builder could have produced: every stored path consists of ordinary
 \* components.  Everything else is hostile input, for which the statement claims containment and no panic only.
 Ordinary(pkg) == \A i \in 1..Len(pkg) : \A k \in 1..Len(pkg[i].comps) : pkg[i].comps[k] \notin {".", ".."}
+\* (a header whose size fields lie about the archive is hostile as well)
+Lying(r) == "lying" \in DOMAIN r /\ r.lying
 ModelOk(r) ==
     /\ r.outcome \in {"ok", "err"}
     /\ r.outside_diff = <<>>                               \* Contained
     \* benign (and stored the ordinary way, base names without '/'): recreated
-    /\ ((Run("safe", Fs0, r.entries).ok /\ Distinct(r.entries) /\ ~r.flat /\ Ordinary(r.entries)) =>
+    /\ ((Run("safe", Fs0, r.entries).ok /\ Distinct(r.entries) /\ ~r.flat /\ Ordinary(r.entries) /\ ~Lying(r)) =>
           r.outcome = "ok" /\ \A n \in ModelInside(r.entries) : Found(r, n))
 
 \* packages built by the library and extracted: every file, directory and link of the configuration
